@@ -11,7 +11,20 @@ ALLOWED_AXIOMS = set()  # none needed so far; stdlib axioms would be named here 
 
 CODEC_MODEL = ["gen/Consts.v", "model/Bytes.v", "model/Errors.v", "model/Codec.v", "corr/CorrBase.v", "corr/CodecCorr.v"]
 
+CACHE_MODEL = ["model/Bytes.v", "model/Errors.v", "model/CacheModel.v", "corr/CorrBase.v", "corr/CacheCorr.v"]
+
 PROPS = {
+    "C09": {
+        "prop_file": "props/C09.v",
+        "files": ["proofs/BytesProofs.v", "proofs/CacheProofs.v", "props/C09.v"],
+        "model_files": CACHE_MODEL,
+        "drivers": [{"name": "cache", "n_quick": 400, "n_thorough": 5000}],
+        "rule": "histories of 2-25 (thorough: 2-41) operations Add/Update/Get/Push/Pop/Reset/Last over 5 keys, limits {0,1,3,10,100,65535}, capacities {0,10,25,100,70000,200000}, "
+                "value lengths {0,1,2,limit-1,limit,limit+1,65535..65537,65536+limit(+1),70000, random<12}, multi-line values; all exported Cache fields compared with the model "
+                "after every operation; non-trivial = at least 2 operations; distinct by full case term",
+        "assumptions": ["value length + capacity < 2^32 (op_bounded): the uint32 wrap of CacheUseSize needs > 4 GiB of cached values and is outside the theorem"],
+        "widen_n": 2000,
+    },
     "C14": {
         "prop_file": "props/C14.v",
         "files": ["proofs/BytesProofs.v", "proofs/CodecProofs.v", "props/C14.v"],
